@@ -205,3 +205,6 @@ func vScope(f func()) {
 	}()
 	f()
 }
+
+// vNative reports whether the harness runs natively (replay) rather than under the symbolic engine.
+func vNative() bool { return true }
